@@ -313,6 +313,9 @@ End Where.
    res = what add() returns: > 0 a value, 0 (nil, nil), < 0 an error.
    Quirk on: the deferred cleanup of the error path deletes the marker and
    unlocks without Broadcast.  Quirk off: it broadcasts. *)
+Definition marker (t : tid) : Z := (- (1 + Z.of_nat t))%Z.
+Arguments marker : simpl never.
+
 Section Import.
   Variable q : Quirks.
   Variable res : Z.
@@ -325,7 +328,7 @@ Section Import.
       Jmp 16;                                   (*  4 return val, nil                         *)
       Wait 0 0;                                 (*  5 service.cond.Wait()                     *)
       Jmp 1;                                    (*  6 (loop)                                  *)
-      Compute 1 (const (- (1 + Z.of_nat t))) 0; (*  7                                         *)
+      Compute 1 (const (marker t)) 0;           (*  7                                         *)
       Write 0 1;                                (*  8 service.cache[key] = nil                *)
       Unlock 0;                                 (*  9 service.mutex.Unlock(); adding = true   *)
       Compute 0 (const res) 0;                  (* 10 val, err := add()                       *)
@@ -341,6 +344,7 @@ Section Import.
       Write 0 1;                                (* 20 delete(service.cache, key)              *)
       (if q_importcache_error_no_broadcast q then Nop else Broadcast 0);   (* 21 *)
       Jmp 16 ].                                 (* 22                                         *)
+  Definition import_progs (t : tid) : list instr := p_import t.
 End Import.
 
 (* ------------------------------------------------------------------ *)
